@@ -55,7 +55,7 @@ func RunGoBatch(progs []string, perRun time.Duration) ([]GoResult, error) {
 		return nil, err
 	}
 	defer os.RemoveAll(dir)
-	if err := os.WriteFile(filepath.Join(dir, "go.mod"), []byte("module batch\n\ngo 1.21\n"), 0o644); err != nil {
+	if err := os.WriteFile(filepath.Join(dir, "go.mod"), []byte("module batch\n\ngo 1.22\n"), 0o644); err != nil {
 		return nil, err
 	}
 	alive := map[int]bool{}
